@@ -6,11 +6,11 @@ EXTENDS Naturals, Sequences, FiniteSets, TLC
 
 RepOn  == INSTANCE Replica WITH RewriteAllSites <- TRUE, RewriteOnEndpoint <- [e \in {"execute", "queued", "request"} |-> TRUE],
                                 SingleApplyPath <- TRUE, Mode <- "mc", MaxReq <- 1, MaxClock <- 1, MaxSnaps <- 1, MaxStmts <- 1,
-                                McAlphabet <- "small", WithFollower <- TRUE, log <- <<>>, clock <- 1, applied <- <<>>, db <- <<>>, started <- <<>>,
+                                McAlphabet <- "small", Reduced <- FALSE, log <- <<>>, clock <- 1, applied <- <<>>, db <- <<>>, started <- <<>>,
                                 snaps <- <<>>, liveAt <- <<>>, prog <- <<>>, sched <- <<>>
 RepOff == INSTANCE Replica WITH RewriteAllSites <- FALSE, RewriteOnEndpoint <- [e \in {"execute", "queued", "request"} |-> TRUE],
                                 SingleApplyPath <- TRUE, Mode <- "mc", MaxReq <- 1, MaxClock <- 1, MaxSnaps <- 1, MaxStmts <- 1,
-                                McAlphabet <- "small", WithFollower <- TRUE, log <- <<>>, clock <- 1, applied <- <<>>, db <- <<>>, started <- <<>>,
+                                McAlphabet <- "small", Reduced <- FALSE, log <- <<>>, clock <- 1, applied <- <<>>, db <- <<>>, started <- <<>>,
                                 snaps <- <<>>, liveAt <- <<>>, prog <- <<>>, sched <- <<>>
 RwOn   == INSTANCE Rewrite WITH PrefilterComplete <- TRUE, ImplicitNow <- TRUE, FormatOnly <- TRUE, WalkEverywhere <- TRUE,
                                 SkipOrderBy <- TRUE, LeaveStringsIdents <- TRUE, UntouchedIfNoSite <- TRUE, OnePin <- TRUE,
